@@ -1,6 +1,6 @@
 (* Concrete non-trivial messages meeting the hypotheses of the C12 / C18 theorems. *)
 From V Require Import Prelude.Base Prelude.PyInt Prelude.PySlice Prelude.PyStr Spec.Ndr64Epm.
-From V Require Import Model.Pdu Model.Request Model.RpcLoop Model.Bind Model.RpcDispatch Model.Epm.
+From V Require Import Model.Pdu Model.Request Model.RpcLoop Model.Bind Model.Verification Model.RpcDispatch Model.Epm.
 From V Require Import Proofs.RpcEpm Proofs.RpcC18.
 
 Definition ex_uuid : bytes := [4; 93; 136; 138; 235; 28; 201; 17; 159; 232; 8; 0; 43; 16; 72; 96].
@@ -41,3 +41,15 @@ Definition ex_towers : list (list spec_floor) :=
 Lemma example_reply : wf_reply None 4 ex_towers 0 = true /\ spec_tcp_port ex_towers = Some 49664
   /\ wf_reply None 4 ex_towers 382312662 = true.
 Proof. split; [vm_compute; reflexivity|]. split; vm_compute; reflexivity. Qed.
+
+(* C12: a verification trailer with the three known commands and an unknown one (raw value of odd length); only the
+   last command carries SEC_VT_COMMAND_END, the second also SEC_VT_MUST_PROCESS_COMMAND *)
+Definition ex_syntax (v : Z) : syntax_id := {| sy_uuid := ex_uuid; sy_version := v; sy_version_minor := 0 |}.
+Definition ex_commands : list command :=
+  [ {| cmd_kind_of := CK_Bitmask 1; cmd_command := 0; cmd_flags := 0; cmd_value := [] |};
+    {| cmd_kind_of := CK_PContext (ex_syntax 1) (ex_syntax 2); cmd_command := 0; cmd_flags := 32768; cmd_value := [] |};
+    {| cmd_kind_of := CK_Header2 0 data_rep_default 7 1 0; cmd_command := 0; cmd_flags := 0; cmd_value := [] |};
+    {| cmd_kind_of := CK_Generic; cmd_command := 100; cmd_flags := 16384; cmd_value := [1; 2; 3] |} ].
+Lemma example_commands : wf_commands ex_commands = true /\ length ex_commands = 4%nat /\
+  forallb wf_command ex_commands = true /\ len (verification_trailer_pack ex_commands) = 87.
+Proof. split; [vm_compute; reflexivity|]. split; [reflexivity|]. split; vm_compute; reflexivity. Qed.
